@@ -1,6 +1,7 @@
 import Driver.Ring
 import Driver.Shard
 import Driver.Routing
+import Driver.Tls
 /-
 Model driver: reads the op lines a harness engine wrote (first line `engine <name>`), runs the
 executable Lean model, prints one observation line per op line.  `/verif/check` diffs this
@@ -14,6 +15,7 @@ inductive St where
   | shard
   | observer (o : S2S.Observer.Obs)
   | routing (d : Drv.Routing.DSt)
+  | tls
 
 def initSt (engine : String) : Option St :=
   match engine with
@@ -21,6 +23,7 @@ def initSt (engine : String) : Option St :=
   | "shard" => some .shard
   | "observer" => some (.observer {})
   | "routing" => some (.routing {})
+  | "tls" => some .tls
   | _ => Option.none
 
 def stepSt (st : St) (line : String) : St × String :=
@@ -30,6 +33,7 @@ def stepSt (st : St) (line : String) : St × String :=
   | .shard => (.shard, Drv.Shard.step line)
   | .observer ob => let (ob', o) := Drv.Observer.step ob line; (.observer ob', o)
   | .routing d => let (d', o) := Drv.Routing.step d line; (.routing d', o)
+  | .tls => (.tls, Drv.Tls.step line)
 
 partial def loop (h : IO.FS.Stream) (out : IO.FS.Stream) (st : St) : IO Unit := do
   let line ← h.getLine
